@@ -103,6 +103,7 @@ func tomlPathOf(info *types.Info, e ast.Expr) (tomlKey, goPath string, ok bool) 
 func c31(p *core.Program, r *core.Report) {
 	r.Rule("R1", "option registry: every flag registered for the server command is bound to the server.Config field whose dotted toml tag path equals the flag name (so the flag, the environment variable derived from the flag name and the configuration-file key address the same option), and every leaf that toml.Marshal(Config) renders is a registered flag name (setAllConfig rejects unknown keys, so anything else breaks the generate-config round trip)")
 	r.Rule("R2", "default agreement: the default passed to each flag registration is the bound Config field itself, or a constant equal to what NewConfig assigns to that field")
+	r.Rule("R5", "no successful return without the copy: in setAllConfig every return before the loop that copies viper's resolved value into each flag (flags.VisitAll with <flag>.Value.Set) returns an error value, never nil")
 	r.Rule("R3", "precedence skeleton of setAllConfig: flags are bound and the environment enabled before values are read; the configuration file is read only when a path is given; a flag the user set (f.Changed) is never overwritten; string-slice options are read with GetStringSlice")
 	r.Rule("R4", "every value survives rendering: a Config field whose toml tag carries `omitempty` has the zero value as its NewConfig default; otherwise setting it to zero renders no key and reading the file back restores the non-zero default")
 	r.NotDecided = "viper's own precedence implementation (third party), TOML encode/decode fidelity for all values"
@@ -305,6 +306,7 @@ func c31(p *core.Program, r *core.Report) {
 
 	// ---- R3
 	c31Skeleton(p, r, cmd)
+	c31CopyOnEverySuccess(p, r, cmd)
 }
 
 func constString(info *types.Info, e ast.Expr) string {
